@@ -93,6 +93,19 @@ def _where(tb):
 
 STALE = collections.Counter()
 _SHM_TMP = None
+_CASE = {"key": "", "n": 0}
+
+
+def begin_case(prop, seed, index):
+    """the environment decisions of run_cli (stale outputs, cwd, --debug, TMPDIR, tty) are drawn per case
+    and per call from (property, seed, case index, call number): reproducible in a replay of the case"""
+    _CASE["key"], _CASE["n"] = f"{prop}:{seed}:{index}", 0
+
+
+def _draw(label, argv):
+    key = label + "," + _CASE["key"] + "," + str(_CASE["n"]) + "," + ",".join(os.path.basename(a) for a in argv)
+    return int(hashlib.sha1(key.encode()).hexdigest()[:6], 16)
+
 _STALE_GAF = "".join(f"stale{i}\t9\t0\t9\t+\t>zz{i}\t9\t0\t9\t9\t9\t60\tNM:i:0\n" for i in range(3))
 
 
@@ -107,8 +120,7 @@ def plant_stale_outputs(argv):
     deterministic quarter of the runs the files a command is about to write already exist, with
     plausible content of an earlier run and a modification time newer than the inputs."""
     argv = [str(a) for a in argv]
-    key = ",".join(os.path.basename(a) for a in argv)
-    if int(hashlib.sha1(key.encode()).hexdigest()[:4], 16) % 4 != 0:
+    if _draw("stale", argv) % 4 != 0:
         return
     targets = []
     for i, a in enumerate(argv[:-1]):
@@ -145,8 +157,7 @@ def relativize(argv):
     file argument with that directory's files named relatively (as users do), otherwise with the
     absolute paths the harness built."""
     argv = [str(a) for a in argv]
-    key = "cwd," + ",".join(os.path.basename(a) for a in argv)
-    if int(hashlib.sha1(key.encode()).hexdigest()[:4], 16) % 5 != 0:
+    if _draw("cwd", argv) % 5 != 0:
         return argv, None
     base = next((os.path.dirname(a) for a in argv[1:] if os.path.isabs(a) and os.path.isfile(a)), None)
     if base is None:
@@ -163,14 +174,14 @@ def relativize(argv):
     return out, old
 
 
-def run_cli(argv, capture_stdout=True, stale=True):
+def run_cli(argv, capture_stdout=True, stale=True, tty_stderr=None):
     import gaftools.__main__ as gm
 
+    _CASE["n"] += 1
     if stale:
         plant_stale_outputs(argv)
     argv, old_cwd = relativize(argv)
-    key = ",".join(os.path.basename(a) for a in argv)
-    h = int(hashlib.sha1(("env," + key).encode()).hexdigest()[:6], 16)
+    h = _draw("env", argv)
     if h % 10 == 0:
         # the global --debug switch only changes what is logged
         argv = ["--debug"] + argv
@@ -199,6 +210,12 @@ def run_cli(argv, capture_stdout=True, stale=True):
     old_out, old_err = sys.stdout, sys.stderr
     out = _Capture()
     err = io.StringIO()
+    if tty_stderr is None:
+        tty_stderr = h % 9 == 0
+    if tty_stderr:
+        # interactive use: standard error is a terminal (standard output still is a file or a pipe)
+        err.isatty = lambda: True
+        STALE["stderr_is_a_terminal_runs"] += 1
     if capture_stdout:
         sys.stdout = out
     sys.stderr = err
